@@ -129,6 +129,8 @@ def replay(ck, em, beh, rng, n):
         sc = 60.0 if dtype == "uint8" else 1500.0
         m.means = np.asarray(m.means) * sc + (120.0 if dtype == "uint8" else 0.0)
         m.variances = np.asarray(m.variances) * sc ** 2
+    from ..common import relayout
+    X = relayout(X, r)          # C order, Fortran order or a strided view of a larger buffer
     use_dask = r.rand() < 0.35
     ck.replayed += 1
     ck.seen(beh["hist"])
@@ -150,6 +152,26 @@ def replay(ck, em, beh, rng, n):
               and np.allclose(pxx, resp[:, i, None] * Xf[i] ** 2, rtol=1e-9, atol=1e-12) and abs(l - ll[i]) <= 1e-9 * max(1, abs(ll[i])))
         if not ok:
             return bad("PosteriorMoments", "sample %d: statistics %s, expected n=%s ll=%s" % (i, (t, nn.tolist(), px.tolist(), pxx.tolist(), l), resp[:, i].tolist(), ll[i]))
+        # the same sample in the other forms the entry point accepts: a 1-D vector, a plain list
+        forms = {"1-D array": X[i], "list of floats": [float(v) for v in X[i]]}
+        if dtype == "float64":
+            import dask.array as da
+            forms["1-D dask array"] = da.from_array(X[i], chunks=(D,))
+        for fname, xv in forms.items():
+            with dask.config.set(scheduler="synchronous"):
+                f1 = fields(m.acc_stats(xv))
+            if not (f1[0] == 1 and np.allclose(f1[1], nn, rtol=1e-12, atol=1e-14) and np.allclose(f1[2], px, rtol=1e-12, atol=1e-14)
+                    and np.allclose(f1[3], pxx, rtol=1e-12, atol=1e-14) and abs(f1[4] - l) <= 1e-12 * max(1, abs(l))):
+                return bad("SingleSampleForms", "sample %d given as a %s: t=%s n=%s, as a one-row batch: t=%s n=%s"
+                           % (i, fname, f1[0], f1[1].tolist(), t, nn.tolist()))
+    # transform() of a 2-D array walks its rows: one statistics object per sample
+    per_row = m.transform(X)
+    if len(per_row) != n or any(fields(s)[0] != 1 for s in per_row) or \
+            any(not np.allclose(fields(s)[1], single[i][1], rtol=1e-12, atol=1e-14) for i, s in enumerate(per_row)):
+        return bad("SingleSampleForms", "transform(X) of an (n, d) array: per-row statistics have t = %s"
+                   % [fields(s)[0] for s in per_row])
+    if False:
+        pass
 
     def expected(cov):
         t = sum(cov)
